@@ -97,6 +97,16 @@ func main() {
 			}
 		}
 		fmt.Printf("layout obligations=%d not-discharged=%d\n", len(obs), bad)
+	case "copyfields":
+		bad := 0
+		obs := e.copyFieldObligations()
+		for _, ob := range obs {
+			if ob.Status != "proved" {
+				bad++
+				fmt.Printf("%-8s %-36s %s\n", ob.Status, ob.Name, ob.Output)
+			}
+		}
+		fmt.Printf("copy-field obligations=%d not-discharged=%d\n", len(obs), bad)
 	case "printforms":
 		bad := 0
 		obs := e.printFormObligations()
